@@ -49,6 +49,14 @@ Fixpoint first_nonzero (l : list N) : nat :=
 Definition offsetnz (W : nat) (block : list N) : nat :=
   if forallb (fun b => b =? 0) block then W else first_nonzero block.
 
+(* `for (i, b) in l.iter().enumerate() { body }` where the body may `return`: Some r = the body returned r at
+   the first index where it does; None = the loop ran off the end of the list (Generated/SwarFns.v) *)
+Fixpoint for_enum {R : Type} (body : nat -> N -> option R) (i : nat) (l : list N) : option R :=
+  match l with
+  | [] => None
+  | b :: r => match body i b with Some x => Some x | None => for_enum body (S i) r end
+  end.
+
 (* ---- 8-bit lane operations (x86 SSE/AVX2, NEON) ---- *)
 Definition max8 (a b : N) : N := N.max a b.                       (* pmaxub *)
 Definition cmpeq8 (a b : N) : N := if a =? b then 255 else 0.     (* pcmpeqb / vceqq_u8 *)
